@@ -356,10 +356,28 @@ func main() {
 		fmt.Printf("CHILD-DONE evaluations=%d signatures=%d\n", e.childEvals, e.childSigs)
 		os.Exit(0)
 	}
+	// each phase runs under another instant of the application's clock:
+	// sub-second parts on both sides of one half, a single-digit day, hours on
+	// both sides of noon, zones east and west of UTC that move the date
+	instants := []time.Time{
+		time.Date(2024, 2, 29, 23, 59, 58, 750000000, time.FixedZone("x", 5*3600)),
+		time.Date(2001, 3, 4, 21, 6, 7, 500000000, time.FixedZone("y", -8*3600)),
+		time.Date(1999, 12, 31, 23, 59, 59, 999999999, time.UTC),
+		time.Date(2038, 1, 19, 3, 14, 8, 1, time.FixedZone("z", 14*3600)),
+	}
+	ci := 0
+	next := func() {
+		e.clock = fixedClock{instants[ci%len(instants)]}
+		ci++
+	}
 	for rep := 0; rep < reps; rep++ {
+		next()
 		runDereference(e)
+		next()
 		runDeliver(e)
+		next()
 		runBatches(e, seed, nRandom)
+		next()
 		runConcurrent(e, seed)
 		runRealChild(e)
 	}
